@@ -120,6 +120,15 @@ def run(ctx):
     for comp in patterning.composition_grid(ctx.rng, ctx.pick(40, 400)):
         compare_variants(ctx, lc, common.spell(patterning.arrange(comp, ctx.rng), ctx.rng))
         ctx.evaluations += 1
+    # 18 and more neutral residues with unequal charge counts: the regime in which only a few end splits are tried, where an
+    # asymmetric shortcut shows as a delta-max that changes under charge inversion
+    for _ in range(ctx.pick(16, 80)):
+        p_ = ctx.rng.randint(1, 8)
+        comp = (p_, p_ + ctx.rng.randint(1, 30), ctx.rng.randint(18, 45))
+        if ctx.rng.random() < 0.5:
+            comp = (comp[1], comp[0], comp[2])
+        compare_variants(ctx, lc, common.spell(patterning.arrange(comp, ctx.rng), ctx.rng))
+        ctx.evaluations += 1
     # lengths next to powers of two (blob counts that are multiples of a chunk size): delta under reversal and inversion
     near = [2 ** k + d for k in (6, 7, 8, 9, 10, 11) for d in (3, 4, 5, 6, 7)]
     for n_ in (near if not ctx.quick else ctx.rng.sample(near, 12) + [517, 518, 1029, 1030]):
